@@ -136,4 +136,39 @@ PROPS = {
                        "unprintable kind); reachability of panic sites from well-formed scripts (map consistency) is decided by correspondence: "
                        "the model returns Except.error exactly where Go panics, and every generated case is checked for recovered panics.",
     },
+
+    "C07": {
+        "level": "proof",
+        "lean_modules": ["SqlizeModel.Props.C07"],
+        "theorems": ["Sqlize.C07.empty_is_zero", "Sqlize.C07.column_order_irrelevant", "Sqlize.C07.same_tables_same_value", "Sqlize.C07.case_option_irrelevant", "Sqlize.sortStrs_perm"],
+        "suites": [{"name": "hash", "repeat_processes": 1, "repeat_processes_thorough": 5}, {"name": "script"}],
+        "corr_points": None,
+        "rule": "hash suite: random schemas (1..4 tables with indexes) x presentations {canonical, one statement per call, alias spelling + keyword "
+                "case, other keyword-case option, permuted columns, create+drop detour of a column/index/table} must give one HashValue equal to the "
+                "Lean model's (real md5 implemented in Lean); single-element edits {rename/retype column, add/drop index, flip uniqueness, other "
+                "index column, move a column to another table} must give a different one; empty schema = 0; the whole suite is re-run in fresh "
+                "processes and must be byte-identical. script suite: model hash = Go hash after every random script. non-trivial = every case; "
+                "distinct by (config, schema)",
+        "trusted_base": COMMON_TB + PAIR_TB + ["MD5 is implemented in Lean (Base/MD5.lean) for the correspondence only; theorems are for an arbitrary digest function"],
+        "assumptions": ["md5 collision-freeness only matters for the 'different schema => different value' direction, which is checked per case, not proved"],
+        "explanation": "Proved for every digest function: empty = 0, independence of column/index order, of keyword-case option, congruence over "
+                       "tables; tied by exact value correspondence (md5 in Lean) on every presentation and edit.",
+    },
+
+    "C08": {
+        "level": "proof",
+        "lean_modules": ["SqlizeModel.Props.C08"],
+        "theorems": ["Sqlize.C08.calls_pure", "Sqlize.C08.up_pure", "Sqlize.C08.down_pure", "Sqlize.migrate_state_of_stable"],
+        "suites": [{"name": "calls", "repeat_processes": 1, "repeat_processes_thorough": 5}, {"name": "pair", "repeat_processes": 1, "repeat_processes_thorough": 3}],
+        "corr_points": ["StringUp", "StringDown", "StringUp-2nd", "state-diff"],
+        "rule": "calls suite: states from the pair space (loaded or diffed, 3 dialects x case x field-order option); all ordered pairs (quick) / "
+                "triples (thorough) of the 8 output methods on 30-40 states plus random sequences of 3..7 calls, some preceded by output calls on both "
+                "sides *before* Diff; each call's bytes are compared with the bytes a fresh instance in the same state returns. Both suites are "
+                "re-run in fresh processes (fresh map-iteration seeds) and must be byte-identical. pair suite: StringUp, StringDown, StringUp again "
+                "against the model. non-trivial = every sequence; distinct by (state, sequence)",
+        "trusted_base": COMMON_TB + PAIR_TB + ["MermaidJs*/ArvoSchema are compared with a fresh instance's output here (their models are in C14/C15)"],
+        "assumptions": ["old is not re-used after Diff"],
+        "explanation": "Proved: on arrange-stable states output calls return the state unchanged, so every call sequence is pure "
+                       "(Sqlize.C08.calls_pure); stability of reachable states and process-independence are decided by the calls suite and fresh-process repeats.",
+    },
 }
